@@ -1,10 +1,12 @@
 from . import streams_codec, cli, streams_ugrid, streams_gathermeshb
+from . import streams_partmeshb
 
 ID = 'C08'
-PROPS_MODULE = ['Refine.Props.C08', 'Refine.Props.C08Endian', 'Refine.Props.C08Ugrid', 'Refine.Props.C08Gather']
+PROPS_MODULE = ['Refine.Props.C08', 'Refine.Props.C08Endian', 'Refine.Props.C08Ugrid', 'Refine.Props.C08Gather',
+                'Refine.Props.C08Part']
 STREAMS = [streams_codec.MESHB_WRITE, streams_codec.MESHB_READ, cli.CONVERT, cli.CONVERT_MPI,
            streams_ugrid.WRITE, streams_ugrid.READ, streams_ugrid.PART, streams_ugrid.GATHER,
-           streams_gathermeshb.GATHERMESHB]
+           streams_gathermeshb.GATHERMESHB, streams_partmeshb.READ]
 EXPLANATION = (
     'Proved in Lean (Refine/Props/C08.lean): decodeMeshb (encodeMeshb v m) = ok m for every WellFormed mesh and '
     'v in {2,3,4} (all 16 cell groups, vertex coordinates as bit patterns, ids, geometry records with gref as a '
@@ -58,8 +60,20 @@ EXPLANATION = (
     'byte limits giving several chunks, unowned / doubly owned vertices (failure branch); at one rank the same grid also goes '
     'through the SERIAL writer ref_export_by_extension and must give the same bytes.  Oracle: an independent keyword-chain '
     'walker + checks/pyio.py parse the file: every next_position exact, vertices bitwise in global order, cell multisets with '
-    'vertex order and ids, association-record multisets (type, vertex, id, gref, parameters), CAD bytes, serial == parallel.')
+    'vertex order and ids, association-record multisets (type, vertex, id, gref, parameters), CAD bytes, serial == parallel.  '
+    'PARALLEL READER (work package partmeshb; '
+    'Props/C08Part.lean): partRead_eq_serial_partial - when rank 0 of the parallel reader and the serial reader both '
+    'accept a file (version >= 2, 1 <= nnode < 2^31, no two cells of a group on the same vertex set), the parallel read '
+    'succeeds on every np >= 1 and its gather (vertices from their owners, every cell from the rank that owns it) is the '
+    'serial mesh: vertices in order bit for bit, per group a permutation of the cells with ids, the CAD bytes on every '
+    'rank, the 2-D flag; with roundtrip_meshb this is the round trip of the parallel reader.  Geometry-association '
+    'records are NOT in the theorem (tied only).  Tie: partmeshb_read (np 1..5: files from the independent writer '
+    'checks/meshio_ref.py, versions 2/3/4, 2-D/3-D, all cell kinds incl. pyramids and high-order, geometry records, '
+    'CAD bytes with all 256 values; per-rank dump == model; python oracle: gathered == file); the chunk-crossing '
+    'stream partmeshb_chunk runs under C06.')
 ASSUMPTIONS = [
+    'parallel READER ref_part_meshb: Props/C08Part.lean (gather is a spec-level definition there: owner-filtered '
+    'concatenation; geometry-association records are tied only)',
     'meshb: serial reader/writer (ref_import_meshb / ref_export_meshb) and the parallel writer ref_gather_meshb are modelled and '
     'tied; the parallel reader is package partmeshb.  Parallel writer: coordinates of the generated meshes avoid -0.0 and NaN '
     '(ref_gather_node sums the owner\'s value with 0.0 padding: known finding ref_gather:sum-padding-loses-negative-zero; the '
